@@ -70,6 +70,12 @@ func loopConfigs(thorough bool, faults bool) []*loop.Config {
 		add(true, "duplicate/head=100,total>kept", o, fat, []loop.Seed{{1: "", 2: ""}, {1: ""}})
 		add(false, "pending-transfer/head=100,total>kept", o, fat, []loop.Seed{{1: "in_transfer", 2: ""}, {1: ""}})
 	}
+	if !faults {
+		// an assigned target outgrows the limits (120 series against 100): the converged state has no target
+		// larger than a shard's limit assigned
+		o := loop.Opt{MaxHead: 0, MaxProc: 100, MaxShard: 4, MinShard: 0, IdleSec: 0}
+		out = append(out, &loop.Config{Name: "assigned-target-outgrows-the-limit", Opt: o, Targets: ab, Shards: []loop.Seed{{1: "", 2: ""}}, BudgetW: 1, Outgrow: true, SigTag: ":assigned-target-outgrew-the-limit"})
+	}
 	if thorough {
 		// a budget of two on the small configurations
 		o := loop.Opt{MaxHead: 0, MaxProc: 100, MaxShard: 4, MinShard: 0, IdleSec: 0}
